@@ -204,12 +204,16 @@ impl<'a, W: Write<Error = E>, E: Error> Writer<'a, W, E> {
 //@     final(self).fin_evs() == old(self).fin_evs(), final(self).fin_errs() == old(self).fin_errs(), final(self).base == old(self).base,
 //@     r is Ok ==> final(self).wf() && final(self).errs() == old(self).errs(),   // [C14,C13,~C06,~C15]
 //@     r is Err ==> final(self).errs() > old(self).errs(),   // [C14]
+//@     r is Ok ==> final(self).evs().len() >= old(self).evs().len()
+//@         && (forall|i: int| 0 <= i < old(self).evs().len() ==> #[trigger] final(self).evs()[i] == old(self).evs()[i]),   // [C13,~C14]
         self.write_str("  ")?;
         self.write_str(name)?;
         if name.len() < longest_name {
             for _i in 0..longest_name - name.len() {
 //@ invariant self.wf(), self.base == old(self).base, self.errs() == old(self).errs(),
 //@     self.fin_evs() == old(self).fin_evs(), self.fin_errs() == old(self).fin_errs(),
+//@     self.evs().len() >= old(self).evs().len(),
+//@     forall|i: int| 0 <= i < old(self).evs().len() ==> #[trigger] self.evs()[i] == old(self).evs()[i],
                 self.write_str(" ")?;
             }
         }
@@ -225,6 +229,8 @@ impl<'a, W: Write<Error = E>, E: Error> Writer<'a, W, E> {
 //@     final(self).fin_evs() == old(self).fin_evs(), final(self).fin_errs() == old(self).fin_errs(), final(self).base == old(self).base,
 //@     r is Ok ==> final(self).wf() && final(self).out() == old(self).out() + lf_to_crlf(title.spec_bytes()) && final(self).errs() == old(self).errs(),   // [C13,C14,~C06,~C15]
 //@     r is Err ==> final(self).errs() > old(self).errs(),   // [C14]
+//@     r is Ok ==> final(self).evs().len() >= old(self).evs().len()
+//@         && (forall|i: int| 0 <= i < old(self).evs().len() ==> #[trigger] final(self).evs()[i] == old(self).evs()[i]),   // [C13,~C14]
         //TODO: add formatting
         self.write_str(title)?;
         Ok(())
